@@ -189,6 +189,55 @@ def no_address_dependence(rep, prog, rule):
     rep.ok(rule, "kernel-scan", "", "%d calls scanned, %d align_to sites" % (scanned, n))
 
 
+def step_count(rep, prog, rule):
+    rep.rule(rule, "every implementation of ImageView::iter_rows_with_step yields a row for every sampling "
+             "position start_y + k * step that lies inside the image, up to max_rows: the bound of its "
+             "0..steps range is min(max_rows, ceil(max(0, (height - start_y) / step))) as a function "
+             "(polynomial normal form with opaque ceil / max / min); with round, floor or a bare truncation "
+             "the quotient k + 0.4999.. that an ordinary pair of sizes produces loses the last row: the zip "
+             "with the destination rows ends one row early and that row keeps its old content")
+    from ..engines.poly import Poly, show, opaque_names
+    n = 0
+    for f in sorted(prog.fns.values(), key=lambda z: z.id):
+        if f.kind == "closure" or (f.d.get("method") or f.name.rsplit("::", 1)[-1]) != "iter_rows_with_step":
+            continue
+        sym = Sym(f)
+        rng = None
+        for b, blk in enumerate(f.blocks):
+            if blk["c"]:
+                continue
+            for j, st in enumerate(blk["s"]):
+                if st[0] == "a" and st[2][0] == "agg" and st[2][1] == "adt" and \
+                        str(st[2][2]).endswith("ops::range::Range"):
+                    rng = (sym.operand(st[2][4][0], (b, j)), sym.operand(st[2][4][1], (b, j)), st[3])
+        if rng is None:
+            continue            # delegating implementations
+        n += 1
+        rep.touch(f)
+        key = f.name
+        P = Poly(sym)
+        hi = P.norm(rng[1])
+        if hi is None:
+            rep.unk(rule, key, rng[2], "bound of the step range not normalised (%s)" % P.failed)
+            continue
+        names_ = opaque_names(hi)
+        txt = show(hi)
+        if "ceil" in names_ and "min" in names_:
+            inner_ok = ("height" in txt) and ("start_y" in txt) and ("1/(step)" in txt or "step" in txt)
+            if inner_ok:
+                rep.ok(rule, key, rng[2], "steps = %s" % txt[:100])
+            else:
+                rep.unk(rule, key, rng[2], "steps = %s" % txt[:100])
+        elif any(x in names_ for x in ("round", "floor")) or ("trunc" in names_ and "ceil" not in names_):
+            rep.bad(rule, key + "|rows-lost", rng[2],
+                    "%s yields steps = %s rows: not rounded up, so for (height - start_y) / step = "
+                    "k + 0.49.. (e.g. 128 -> 160 rows) the last sampling position inside the image gets "
+                    "no row and the last destination row is never written" % (f.name, txt[:120]))
+        else:
+            rep.unk(rule, key, rng[2], "steps = %s" % txt[:100])
+    rep.floor(rule, "iter_rows_with_step implementations with a step range", n, 2)
+
+
 def step_siblings(rep, prog, rule):
     rep.rule(rule, "all implementations of ImageView::iter_rows_with_step (the trait default and the "
              "overrides of the containers) derive the row index from the floating-point position in "
@@ -280,6 +329,7 @@ def run(rep, tier):
         rep.call(index_rules.cropped_row_slices, rep, prog, "C13.view-offsets-cropped")
         rep.call(dispatch_pure, rep, prog, "C13.dispatch-pure")
         rep.call(step_siblings, rep, prog, "C13.step-siblings")
+        rep.call(step_count, rep, prog, "C13.step-count")
         rep.call(no_address_dependence, rep, prog, "C13.no-address-dependence")
         rep.call(loadwidth.guard_adequacy, rep, prog, "C13.row-end", loadwidth.FLOOR.get(cfg, 50))
     if tier == "thorough":
